@@ -93,7 +93,8 @@ def run(chk):
         special = {"vertica": ["select swap_partitions_between_tables('a', 1)", "select swap_partitions_between_tables('a', 1, 2, 'b')",
                                "select swap_partitions_between_tables()"],
                    "ansi": ["select '{{' from t", "select 1 from t -- {{ x", "select {# c #} 1", "rename table a to b", ""],
-                   "mysql": ["rename table a to b, b to a", "rename table a to b, c to d, b to c"],
+                   "mysql": ["rename table a to b, b to a", "rename table a to b, c to d, b to c", "rename table a to tmp, b to a, tmp to b",
+                             "insert into a select x from s; insert into b select y from a; rename table a to t1, b to t2, c to a, t1 to c, t2 to b"],
                    "exasol": ["SELECT seq4(), uniform(1, 10, random(12))\nFROM table(generator()) v\nORDER BY 1;"]}
         special["ansi"] += ["MERGE INTO target\nUSING src ON target.k = src.k\nWHEN NOT MATCHED THEN INSERT ( ) VALUES (src.k)",
                             "SELECT\nCASE WHEN 1 = (SELECT count(*) FROM tab1) THEN (SELECT count%s(*) FROM tab2) ELSE 0 END AS cnt"]
